@@ -11,7 +11,13 @@ import numpy as np
 
 from pipefunc._utils import dump, load
 
-from ._base import StorageBase, normalize_key, register_storage, select_by_mask
+from ._base import (
+    StorageBase,
+    check_linear_index,
+    normalize_key,
+    register_storage,
+    select_by_mask,
+)
 
 if TYPE_CHECKING:
     from collections.abc import MutableMapping
@@ -51,11 +57,13 @@ class DictArray(StorageBase):
 
     def get_from_index(self, index: int) -> Any:
         """Return the data associated with the given linear index."""
+        check_linear_index(index, self.size)
         np_index = np.unravel_index(index, self.shape)
         return self._dict[np_index]  # type: ignore[index]
 
     def has_index(self, index: int) -> bool:
         """Return whether the given linear index exists."""
+        check_linear_index(index, self.size)
         np_index = np.unravel_index(index, self.shape)
         return np_index in self._dict
 
